@@ -6,15 +6,12 @@ ID = "C15"
 HARNESSES = [dict(name="cgnat", pkg="./internal/cgnat/", test="TestVerifC15", timeout=900,
                   files=[("internal/cgnat/zz_verif_c15_test.go", "harness/C15/zz_verif_c15_test.go")])]
 MODEL_NEEDS_IMPL = True
-# repaired first; "def:XYZ" = model with the listed recorded defects present
-#   R restoreLocked does not validate   A ReverseIndex.Add appends a duplicate   D duplicate outside addresses kept
-#   S failed HA-synced activation leaves reverse entries          (R, A, D, S are fixed in /repo: a regression of
-#                                                                   those is a VIOLATION, their variants are not tried)
-#   V the component keys the pool by inside VRF 0 for every session
-#   X cgnat.Config.Validate accepts two pools that share an outside address
-#   L a dataplane add completing late is committed / rolled back without looking at what happened meanwhile
-# comp cases can need V and/or L, mp cases X; no case needs X together with V or L.
-VARIANTS = ["repaired", "def:L", "def:V", "def:VL", "def:X"]
+# The model has one flag per defect that was found (R restore unvalidated, A reverse Add duplicate, D duplicate outside
+# address, S synced rollback, V inside VRF 0, X pools sharing an outside address, L late add completion).  All seven
+# are fixed in /repo (285c7b2 7d1d0b3 3b1c45d 0cedd79 53e73c2 1fd8c60 8d8ac1d), so only the repaired model is tried:
+# a regression to any old defect is a VIOLATION.  The driver still understands "def:<letters>" (used by the _refuted
+# theorems' replays and when triaging by hand).
+VARIANTS = ["repaired"]
 DEFECT_NAMES = {"R": "restore-unvalidated", "A": "reverse-add-duplicate", "D": "duplicate-outside-address",
                 "S": "synced-rollback-keeps-reverse-entries", "V": "inside-vrf-zero",
                 "X": "pool-outside-overlap", "L": "late-add-completion"}
@@ -316,8 +313,8 @@ def gen_mp_case(rng, nmax):
 
 
 def gen_cases(rng, tier, budget):
-    npool = (budget or 360) if tier == "quick" else (budget or 4000)
-    ncomp = (budget or 270) if tier == "quick" else (budget or 3000)
+    npool = (budget or 500) if tier == "quick" else (budget or 5000)
+    ncomp = (budget or 450) if tier == "quick" else (budget or 4500)
     cases = []
     # fill-and-drain histories: every block of a small pool is handed out, released and handed out again
     for bs, mx, pooling, outs in [(16, 3, 2, "%d,%d" % (BASE + 1, BASE + 2)), (32, 2, 1, "%d/31" % BASE), (64, 1, 0, str(BASE + 3)),
@@ -344,7 +341,7 @@ def gen_cases(rng, tier, budget):
     cases.append("pool bs=0 ratio=1 range=0-65535 max=1 pooling=1 out=%d excl=- | a:1 d" % (BASE + 1))
     for _ in range(npool):
         cases.append(gen_pool_case(rng, 70 if tier == "thorough" or rng.random() < 0.3 else 30))
-    for _ in range(100 if tier == "quick" else 1200):
+    for _ in range(150 if tier == "quick" else 1500):
         cases.append(gen_mp_case(rng, 40))
     for _ in range(ncomp):
         cases.append(gen_comp_case(rng, 30 if tier == "thorough" or rng.random() < 0.3 else 14))
@@ -422,7 +419,7 @@ def closest_variant(case, impl, model):
 
 
 def classify(case, impl, model):
-    v, ref = closest_variant(case, impl, model)
+    v, ref = ("repaired", model) if len(VARIANTS) == 1 else closest_variant(case, impl, model)
     tag = "" if v == "repaired" else " [compared with model variant %s, i.e. besides the recorded defect(s) %s]" % (
         v, "+".join(DEFECT_NAMES[c] for c in v[4:]))
     k, txt = classify1(case, impl, ref)
